@@ -7,6 +7,7 @@ CONSTANTS
   K1Kinds = {"none"}
   K2Kinds = {"none"}
   PickedOnly = TRUE
+  PreAll = FALSE
 INVARIANTS
   VerdictOK
   C10_EscapesRejected
